@@ -43,7 +43,9 @@ def compile_all(tdir, td, progs):
         p = os.path.join(td, "m%d.nano" % i)
         open(p, "w").write(text)
         o = p[:-5] + ".nvm"
-        r = subprocess.run([os.path.join(tdir, "bin", "nano_virt"), p, "--emit-nvm", "-o", o], stdout=subprocess.PIPE, stderr=subprocess.PIPE)
+        # (a sanitizer build of the compiler reports its own leaks at exit and then fails: leak checking off for the compile step)
+        r = subprocess.run([os.path.join(tdir, "bin", "nano_virt"), p, "--emit-nvm", "-o", o], stdout=subprocess.PIPE, stderr=subprocess.PIPE,
+                           env=dict(os.environ, ASAN_OPTIONS="detect_leaks=0"))
         if r.returncode == 0 and os.path.exists(o):
             mods.append({"name": name, "path": o, "blob": open(o, "rb").read(), "source": text})
     return mods
